@@ -8,6 +8,7 @@ import (
 	"encoding/json"
 	"fmt"
 	"os"
+	"regexp"
 	"runtime"
 	"sort"
 	"sync"
@@ -121,10 +122,27 @@ func NewReport() *Report {
 
 const maxMismatches = 200
 
+// knownSig matches the signatures of recorded known findings (set by the checker): such mismatches are counted, but only a
+// few of them are kept, so that they cannot crowd a different violation out of the report.
+var knownSig = func() *regexp.Regexp {
+	if p := os.Getenv("VERIF_KNOWN_SIG_RE"); p != "" {
+		if re, err := regexp.Compile(p); err == nil {
+			return re
+		}
+	}
+	return nil
+}()
+
 func (r *Report) Add(m Mismatch) {
 	r.mu.Lock()
 	defer r.mu.Unlock()
 	r.MismatchN++
+	if knownSig != nil && knownSig.MatchString(m.Sig) {
+		r.Counters["mismatches_matching_a_known_finding"]++
+		if r.Counters["mismatches_matching_a_known_finding"] > 3 {
+			return
+		}
+	}
 	key := m.Property + "|" + m.Sig
 	if _, dup := r.seen[key]; dup {
 		return
